@@ -582,7 +582,7 @@ Section Bound.
       - right. apply andb_true_iff in Ec as [_ Ec]. destruct buf'; [reflexivity|discriminate]. }
     pose proof I1 as (J1 & J2 & J3 & J4 & J5 & J6 & J7 & J8 & J9 & J10).
     destruct (resume_spec f s1 J2 J5 Ho) as (F2 & B2 & K2 & Cl2).
-    apply (Inv_of c s1); auto. intro X. destruct (Cl2 X); auto.
+    apply (Inv_of c s1); auto; intro X; destruct (Cl2 X); auto.
   Qed.
 
   Lemma take_k_inv c f k : forall s acc s' d, Inv c s -> take_k H hnew hstep havail heof hflush f k s acc = (s', d) -> Inv c s'.
@@ -615,7 +615,7 @@ Section Bound.
     - destruct I6 as [?|[?|I6]]; auto. right; right. intro Ho. apply I6. lia.
   Qed.
 
-  Lemma set_wt_inv c s w : Inv c s -> Inv c (set_wt H s w).
+  Lemma set_wt_inv c s w0 : Inv c s -> Inv c (set_wt H s w0).
   Proof. intros Hi. bust s. unfold Inv in *. unf. unfold set_wt, set_re. cbn in *. exact Hi. Qed.
 
   Lemma op_body_inv c f s o s' r : Inv c s -> op_body H hnew hstep havail heof hflush f s o = (s', r) -> Inv c s'.
@@ -672,12 +672,12 @@ Section Bound.
     right. intro Ho. destruct (I6 Ho) as (_ & X). specialize (X Hc). rewrite X in Ht. discriminate.
   Qed.
 
-  Lemma settle_inv c f (yo yo' : sys * obs) :
-    Inv c (core (fst yo)) -> settle H hnew hstep havail heof hflush f yo = yo' -> Inv c (core (fst yo')).
+  Lemma settle_inv c f (y : sys) (o : obs) (y' : sys) (o' : obs) :
+    Inv c (core y) -> settle H hnew hstep havail heof hflush f (y, o) = (y', o') -> Inv c (core y').
   Proof.
-    destruct yo as [y o]. cbn [fst]. intros Hi. unfold settle. destruct (closing (pr (core y))) eqn:Ec; [|intros <-; exact Hi].
+    intros Hi. unfold settle. destruct (closing (pr (core y))) eqn:Ec; [|intros [= <- <-]; exact Hi].
     destruct (poll H hnew hstep havail heof hflush f (mkSys H (connection_lost H hnew hstep havail heof hflush f (core y)) (pend y))) as [y1 o1] eqn:Ep.
-    intros <-. cbn [fst]. eapply poll_inv; [|exact Ep]. cbn [core].
+    intros [= <- _]. eapply poll_inv in Ep; [exact Ep|]. cbn [core].
     apply connection_lost_inv; [exact Hi|]. left. destruct Hi as (_ & _ & _ & _ & _ & _ & _ & _ & I9 & _). auto.
   Qed.
 
@@ -693,20 +693,19 @@ Section Bound.
       { apply (Inv_of c (core y)); auto. }
       intros Hs.
       destruct (poll H hnew hstep havail heof hflush f (mkSys H (parser_feed H hnew hstep havail heof hflush f (core y) d) (pend y))) as [y1 o1] eqn:Ep.
-      pose proof (poll_inv c f _ _ _ J Ep) as J1.
-      pose proof (settle_inv c f (y1, o1) (y', o) J1 Hs) as J2. exact J2.
+      eapply poll_inv in Ep; [|exact J]. eapply settle_inv in Hs; [exact Hs|exact Ep].
     - destruct (deliverable H (core y) && pp_present (pr (core y)) && parser_alive (pr (core y))) eqn:Ed; [|intros [= <- <-]; exact Hi].
       apply andb_true_iff in Ed as [Ed Ha]. apply andb_true_iff in Ed as [Ed _].
       pose proof (deliverable_E c _ Hi Ed Ha) as He.
-      intros Hp. eapply poll_inv; [|exact Hp]. cbn [core]. apply connection_lost_inv; [exact Hi|]. right. apply E_G; exact He.
+      intros Hp. eapply poll_inv in Hp; [exact Hp|]. cbn [core]. apply connection_lost_inv; [exact Hi|]. right. apply E_G; exact He.
     - destruct (pend y); [intros [= <- <-]; exact Hi|].
       destruct (op_start H hnew hstep havail heof hflush f (core y) op0) as [s1 r] eqn:Eo.
       pose proof (op_start_inv _ _ _ _ _ _ Hi Eo) as J.
       destruct r as [d| |e].
-      + intros Hs. exact (settle_inv c f (mkSys H s1 None, ORes (RData d)) (y', o) J Hs).
+      + intros Hs. eapply settle_inv in Hs; [exact Hs|exact J].
       + destruct (settle H hnew hstep havail heof hflush f (mkSys H s1 (Some op0), ONone)) as [y1 o1] eqn:Es.
-        pose proof (settle_inv c f _ _ J Es) as J1. cbn [fst] in J1. destruct o1; intros [= <- <-]; exact J1.
-      + intros Hs. exact (settle_inv c f (mkSys H s1 None, ORes (RErr e)) (y', o) J Hs).
+        eapply settle_inv in Es; [|exact J]. destruct o1; intros [= <- <-]; exact Es.
+      + intros Hs. eapply settle_inv in Hs; [exact Hs|exact J].
   Qed.
 
   Lemma run_inv c f : forall evs (y y' : sys) os, Inv c (core y) -> run H hnew hstep havail heof hflush f y evs = (y', os) -> Inv c (core y').
@@ -721,8 +720,8 @@ Section Bound.
   Proof.
     intros Hf Hl He. unfold init, Inv. unf. cbn. unfold dg_low, dg_high.
     repeat split; auto; try lia; try discriminate.
-    - destruct (enc =? 0) eqn:E0; [lia|reflexivity].
-    - right; right. intro Ho. lia.
+    all: try (destruct (enc =? 0) eqn:E0; [lia|reflexivity]).
+    all: try (right; right; intro Ho; lia).
   Qed.
 
   Theorem bounded_memory : forall f c t len enc evs (y : sys) os,
